@@ -783,6 +783,10 @@ def _copy_to_job_workspace(src, job, copytree):
 
     """
     dst = job.path
+    # Refuse before calling the copy function: functions such as shutil.move do
+    # not fail for an existing destination but move the source *into* it.
+    if os.path.exists(dst):
+        raise DestinationExistsError(job)
     try:
         copytree(src, dst)
     except OSError as error:
